@@ -1,7 +1,10 @@
 """C17 - read-only and copy-returning APIs never modify their input."""
 from __future__ import annotations
 
+import ast
+
 from fdlstatic.ctx import Ctx
+from fdlstatic.model import unparse
 from fdlstatic.report import RuleSet
 from fdlstatic.rules import ownrule
 
@@ -117,7 +120,91 @@ ASSUMPTIONS = [
 ]
 
 
+def codegen_callbacks(ctx: Ctx):
+  """Traversal callbacks of the code generators: nested functions handed to
+
+  a daglish traversal.  The passes are chained through dataclass fields (not
+  resolvable calls), and the task they rewrite starts out holding the caller's
+  configuration itself, so each callback is checked as an entry point of its
+  own: it must not modify the node it is given.
+  """
+  out = {}
+  for mn in sorted(ctx.p.modules):
+    if not mn.startswith(f'{S}.codegen'):
+      continue
+    for f in ctx.mod(mn).all_funcs:
+      for c in ctx.calls(f):
+        fn = unparse(c.func)
+        if fn.endswith(('Traversal.run', 'traverse_parents_first',
+                        'traverse_with_path', 'memoized_traverse')) and (
+                            c.args and isinstance(c.args[0], ast.Name)):
+          q = ctx.p.resolve(c.args[0], f)
+          if q in ctx.p.funcs:
+            out[q] = f.qualname
+  return out
+
+
+def _ir_guarded_stores(ctx: Ctx, cb) -> dict:
+  """Attribute stores on the callback's node parameter that sit under
+
+  `if isinstance(<param>, code_ir.<Class>)`: the node is an IR object created
+  by an earlier pass, never part of the caller's configuration.
+  """
+  f = ctx.func(cb)
+  param = f.params[0]
+  out = {}
+
+  def visit(stmts, guarded):
+    for st in stmts:
+      if isinstance(st, ast.If):
+        t = st.test
+        g = guarded
+        if isinstance(t, ast.Call) and unparse(t.func) == 'isinstance' and len(
+            t.args) == 2 and unparse(t.args[0]) == param:
+          tys = t.args[1].elts if isinstance(
+              t.args[1], ast.Tuple) else [t.args[1]]
+          if all(unparse(x).startswith('code_ir.') for x in tys):
+            g = True
+        visit(st.body, g)
+        visit(st.orelse, guarded)
+      elif isinstance(st, (ast.For, ast.While, ast.With, ast.Try)):
+        for fld in ('body', 'orelse', 'finalbody'):
+          visit(getattr(st, fld, []) or [], guarded)
+        for h in getattr(st, 'handlers', []) or []:
+          visit(h.body, guarded)
+      elif isinstance(st, ast.Assign):
+        for t in st.targets:
+          if isinstance(t, ast.Attribute) and unparse(t.value) == param:
+            out[f'{param}.{t.attr}'] = out.get(f'{param}.{t.attr}', True) and guarded
+
+  visit(f.node.body, False)
+  return {k for k, v in out.items() if v}
+
+
 def run(ctx: Ctx, rs: RuleSet, tier: str):
+  cbs = codegen_callbacks(ctx)
+  cb_exc = {}
+  for cb in cbs:
+    for tgt in _ir_guarded_stores(ctx, cb):
+      cb_exc[(cb, f'store `{tgt} = ')] = (
+          'the store is under isinstance(value, code_ir.<IR class>): an IR '
+          'node created by an earlier pass, not part of the caller\'s '
+          'configuration (guard re-verified)')
+  ownrule.run_entry_points(
+      ctx, rs, 'OWN.codegen-callbacks', sorted(cbs),
+      inputs={cb: [ctx.func(cb).params[0]] for cb in cbs}, exceptions=cb_exc,
+      statement='no traversal callback of a code generation pass modifies '
+      'the node it is visiting (the first pass visits the caller\'s own '
+      'configuration objects); rewriting happens on copies')
+  rs.declare('OWN.codegen-callbacks', 'traversal callbacks of the code '
+             'generators', 15)
+  # premise of the ownership abstraction, re-verified on every run
+  from fdlstatic.rules import c08
+  rs.declare('SHAPE.map-children', 'State.map_children returns a new '
+             'container for every traversable value (the copies that the '
+             'copy-returning APIs hand back are never the caller\'s own '
+             'nodes, even childless ones)', 1)
+  c08.map_children_rule(ctx, rs, 'SHAPE.map-children')
   entries = sorted(ENTRIES)
   own = ownrule.run_entry_points(
       ctx, rs, 'OWN.input-unmodified', entries,
